@@ -249,4 +249,33 @@ MUTANTS = [
            "    no_gap_pos = np.where((alignment.trace != -1).all(axis=1))[0]\n    return alignment[no_gap_pos[0] : no_gap_pos[-1] + 1]", "R6.parameter-read"),
     Mutant("identity-any", ALN, "        if len(unique_symbols) == 1 and unique_symbols[0] != -1:", "        if len(unique_symbols) <= 2 and unique_symbols[0] != -1:", "R6.identity-all-rows"),
     Mutant("intron-dropped-from-reader", CIG, "        elif op in (CigarOp.DELETION, CigarOp.INTRON):", "        elif op in (CigarOp.DELETION,):", "R2.op-handled"),
+    # ---- one seeded fault per rule that had none -------------------------------------------
+    Mutant("inverse-table-not-inverted", CIG, "_op_to_str = {v: k for k, v in _str_to_op.items()}", "_op_to_str = {k: v for k, v in _str_to_op.items()}", "R1.inverse-table"),
+    Mutant("symbol-b-dropped", CIG, '    "X": CigarOp.DIFFERENT,\n    "B": CigarOp.BACK,\n}', '    "X": CigarOp.DIFFERENT,\n}', "R1.symbol-table-total"),
+    Mutant("op-without-symbol", CIG, "    BACK = 9\n", "    BACK = 9\n    SKIP = 10\n", "R1.symbol-table-total"),
+    Mutant("row-index-by-one", CIG, "        i += length\n", "        i += 1\n", "R2.output-index-advances"),
+    Mutant("ref-start-zero", CIG, "    ref_pos = position\n", "    ref_pos = 0\n", "R2.start-position"),
+    Mutant("clip-mask-not-applied", CIG, "    # Remove clipped positions\n    trace = trace[clip_mask]\n", "", "R2.start-position"),
+    Mutant("deletion-columns-swapped", CIG, "            trace[i : i + length, 0] = np.arange(ref_pos, ref_pos + length)\n            trace[i : i + length, 1] = -1\n",
+           "            trace[i : i + length, 1] = np.arange(ref_pos, ref_pos + length)\n            trace[i : i + length, 0] = -1\n", "R2.trace-columns"),
+    Mutant("hard-clip-not-masked", CIG, "        elif op == CigarOp.HARD_CLIP:\n            clip_mask[i : i + length] = False\n", "        elif op == CigarOp.HARD_CLIP:\n            pass\n", "R2.trace-columns"),
+    Mutant("unknown-op-skipped", CIG, '        else:\n            raise ValueError(f"CIGAR operation {op} is not implemented")\n', "", "R2.unsupported-rejected"),
+    Mutant("padding-as-hard-clip", CIG, "        elif op == CigarOp.HARD_CLIP:\n", "        elif op in (CigarOp.HARD_CLIP, CigarOp.PADDING):\n", "R2.unsupported-rejected"),
+    Mutant("clip-choice-inverted", CIG, "    clip_op = CigarOp.HARD_CLIP if hard_clip else CigarOp.SOFT_CLIP\n", "    clip_op = CigarOp.SOFT_CLIP if hard_clip else CigarOp.HARD_CLIP\n", "R3.clip-choice"),
+    Mutant("intron-stop-inclusive", CIG, "(ref_trace >= start) & (ref_trace < stop)", "(ref_trace >= start) & (ref_trace <= stop)", "R3.intron"),
+    Mutant("intron-outside-deletion-accepted", CIG, '        if np.any(intron_mask & ~deletion_mask):\n            raise ValueError("Introns must be within gaps in the reference sequence")\n', "", "R3.intron"),
+    Mutant("different-on-gap-columns", CIG, "        operations[~equal_mask & match_mask] = CigarOp.DIFFERENT\n", "        operations[~equal_mask] = CigarOp.DIFFERENT\n", "R3.match-refinement"),
+    Mutant("run-start-not-shifted", CIG, "    # Also include the first operation\n    op_start_indices += 1\n", "    # Also include the first operation\n", "R3.run-lengths"),
+    Mutant("cigar-symbol-before-count", CIG, "        cigar += str(count) + CigarOp(op).to_cigar_symbol()\n", "        cigar += CigarOp(op).to_cigar_symbol() + str(count)\n", "R3.string-form", qualname="_cigar_from_op_tuples"),
+    Mutant("cigar-symbol-as-code", CIG, "            op = CigarOp.from_cigar_symbol(char)\n", "            op = CigarOp[char]\n", "R3.string-form", qualname="_op_tuples_from_cigar"),
+    Mutant("codes-gap-zero", ALN, "sequences[i].code[trace[:, i]], np.int64(-1)\n", "sequences[i].code[trace[:, i]], np.int64(0)\n", "R4.codes-gap"),
+    Mutant("fasta-row-off-by-one", FCONV, "        fasta_file[seq_names[i]] = gapped_seq_strings[i]\n", "        fasta_file[seq_names[i]] = gapped_seq_strings[i - 1]\n", "R4.fasta-names"),
+    Mutant("running-index-not-advanced", ALN, "                    trace[pos_i, str_j] = seq_i[str_j]\n                    seq_i[str_j] += 1\n", "                    trace[pos_i, str_j] = seq_i[str_j]\n", "R4.gap-is-minus-one"),
+    Mutant("position-zero-written-as-gap", ALN, "            if j != -1:\n                seq_str += str(self.sequences[seq_index][j])", "            if j > 0:\n                seq_str += str(self.sequences[seq_index][j])", "R4.gap-is-minus-one"),
+    Mutant("terminal-stop-inclusive", ALN, "    return np.max(firsts).item(), np.min(lasts).item() + 1\n", "    return np.max(firsts).item(), np.min(lasts).item()\n", "R4.terminal-gaps"),
+    Mutant("terminal-start-earliest", ALN, "    return np.max(firsts).item(), np.min(lasts).item() + 1\n", "    return np.min(firsts).item(), np.min(lasts).item() + 1\n", "R4.terminal-gaps"),
+    Mutant("msa-gap-code-kept", MULT, "        code[code != gap_symbol_code] for code in aligned_seq_codes\n", "        code for code in aligned_seq_codes\n", "R5.gap-symbol"),
+    Mutant("msa-gap-position-zero", MULT, "            if seq_code[i] == gap_symbol_code:\n                trace[i,j] = -1\n", "            if seq_code[i] == gap_symbol_code:\n                trace[i,j] = 0\n", "R5.gap-symbol"),
+    Mutant("msa-returns-inverse-order", MULT, "    return Alignment(aligned_seqs, trace), order, guide_tree, distances\n", "    return Alignment(aligned_seqs, trace), new_order, guide_tree, distances\n", "R5.returns"),
+    Mutant("gap-state-shared", ALN, "    for seq_code in codes:\n        in_gap = False\n", "    in_gap = False\n    for seq_code in codes:\n", "R6.gap-state-per-sequence"),
 ]
